@@ -8,7 +8,7 @@ def rnd(r, n):
 
 
 def run_c13(ctx):
-    ctx.rule = ("random operation sequences on one MsgSigner (<= 32 messages, lengths 0..4096, 1..17 chunks "
+    ctx.rule = ("small-order public keys / R with s = 0 against direct verification; random operation sequences on one MsgSigner (<= 32 messages, lengths 0..4096, 1..17 chunks "
                 "incl. empty chunks); the model names the byte strings signed, one-shot dalek and the Python "
                 "RFC 8032 code sign them, all signature lists must agree; verifier on valid triples and "
                 "single-bit corruptions of message / signature / key, messages 0..4096 bytes in 1..17 chunks incl. cuts at multiples of 1024; non-trivial = distinct sequence with "
